@@ -27,6 +27,8 @@ Proved here, for all inputs / schedules of the model (Model/C20.lean):
   * source    — `…_matches_source` (Props/C20Tie.lean): the model's decision functions equal the decision expressions regenerated from
                 the current source (tick condition, track's loop/negative/close tests, exit status, namespace choice,
                 expected-perform tests, `expected` default, median branch tests, outlier and IQR comparisons).
+  * pipeline  — `isEligible_iff` (what the simulated check decides, for ascending eligible blocks),
+                `performHistory_prefix` (the perform history handed to the check goroutines is append-only).
   * transmit  — `transmit_accepts_once`: with `Transmit` one critical section, each (report, round) is accepted
                 exactly once in every order of the nodes' calls (the lock discipline itself is a fact about the
                 code: checked by an un-timed concurrent stress on the real loader and by the race build).
@@ -925,6 +927,61 @@ theorem transmit_accepts_once (keys : List String) :
   simpa [accepted] using this
 
 example : accepted ["r1", "r1", "r2", "r1", "r2"] = ["r1", "r2"] := by decide
+
+/-! ### simulated check pipeline and perform history -/
+
+/-- the perform history is append-only: what was handed out earlier is a prefix of every later history, so a
+reader holding an earlier slice never sees one of its entries change -/
+theorem performHistory_prefix (blocks more : List Int) :
+    performHistory blocks <+: performHistory (blocks ++ more) := by
+  have h : ∀ (l acc : List Int), l.foldl (fun h b => h ++ [b]) acc = acc ++ l := by
+    intro l; induction l with
+    | nil => intro acc; simp
+    | cons x xs ih => intro acc; simp [List.foldl, ih]
+  simp [performHistory, h]
+
+/-- `isEligible` with eligible blocks in ascending order: true iff there is an eligible block `≤ block` and the
+upkeep was not performed between the LATEST such block and `block` -/
+theorem isEligible_iff (es ps : List Int) (b : Int) (hs : es.Pairwise (· ≤ ·)) :
+    isEligible es ps b = true ↔
+      ∃ e ∈ es, e ≤ b ∧ (∀ e' ∈ es, e' ≤ b → e' ≤ e) ∧ ∀ p ∈ ps, ¬ (e ≤ p ∧ p ≤ b) := by
+  unfold isEligible
+  cases hf : es.reverse.find? (fun e => decide (b ≥ e)) with
+  | none =>
+    simp only [Bool.false_eq_true, false_iff]
+    rintro ⟨e, he, heb, -, -⟩
+    have := List.find?_eq_none.mp hf e (by simpa using he)
+    simp at this; omega
+  | some e =>
+    have hmem : e ∈ es := by simpa using List.mem_of_find?_eq_some hf
+    have hle : e ≤ b := by simpa using List.find?_some hf
+    -- e is the last element of `es` that is ≤ b: everything ≤ b in `es` is ≤ e
+    have hmax : ∀ e' ∈ es, e' ≤ b → e' ≤ e := by
+      intro e' he' hb'
+      obtain ⟨l1, l2, hl, hno⟩ := List.find?_eq_some_iff_append.mp hf |>.2
+      have hrev : es = l2.reverse ++ e :: l1.reverse := by
+        have := congrArg List.reverse hl; simpa using this
+      rw [hrev] at he' hs
+      rcases List.mem_append.mp he' with h1 | h1
+      · have := (List.pairwise_append.mp hs).2.2 e' h1 e (by simp)
+        exact this
+      · rcases List.mem_cons.mp h1 with h2 | h2
+        · omega
+        · have := hno e' (by simpa using h2)
+          simp at this; omega
+    simp only [Bool.not_eq_true', List.any_eq_false, Bool.and_eq_true, decide_eq_true_eq]
+    constructor
+    · intro h
+      exact ⟨e, hmem, hle, hmax, fun p hp => h p hp⟩
+    · rintro ⟨e2, he2, he2b, hmax2, hnp⟩
+      have : e2 = e := by
+        have := hmax e2 he2 he2b; have := hmax2 e hmem hle; omega
+      subst this
+      intro p hp; exact hnp p hp
+
+example : isEligible [10, 20, 30] [12] 25 = true ∧ isEligible [10, 20, 30] [22] 25 = false ∧
+    isEligible [10, 20, 30] [] 9 = false ∧ checkEligible (some ⟨false, false, [10]⟩) [] 5 = false ∧
+    checkEligible (some ⟨false, false, [10]⟩) [] 12 = true := by decide
 
 /-! ### run record (specification only — see the header: not provable of real runs from a model) -/
 
